@@ -95,7 +95,8 @@ def define(lean_name: str, e: ast.expr, ret: str = "Rat", params=None) -> str:
 
 def generate(lean_dir: str):
     paths = gen_c20.generate(lean_dir)
-    out = [P.HEADER.format(src="pdfminer/pdfinterp.py, pdfdevice.py, layout.py, pdffont.py, pdfcolor.py", ns="Interp")]
+    out = [P.HEADER.format(src="pdfminer/pdfinterp.py, pdfdevice.py, layout.py, pdffont.py, pdfcolor.py", ns="Interp")
+           .replace("import PdfVerif.Model.Prelude", "import PdfVerif.Model.Prelude\nimport PdfVerif.Gen.Utils")]
 
     interp = P.parse_file("pdfminer/pdfinterp.py")
     cls = next((n for n in interp.body if isinstance(n, ast.ClassDef) and n.name == "PDFPageInterpreter"), None)
@@ -147,10 +148,29 @@ def generate(lean_dir: str):
                    ("wordspace", ["wordspace", "scaling"]), ("dxscale", ["fontsize", "scaling"])):
         out.append(define("rs_" + nm, find_assign_in(rs, nm), params=ps))
 
+    # what render_string hands to render_string_vertical as `charspace` and `dxscale`
+    vcall = None
+    for node in ast.walk(rs):
+        if isinstance(node, ast.Call) and isinstance(node.func, ast.Attribute) and node.func.attr == "render_string_vertical":
+            vcall = node
+    if vcall is None or len(vcall.args) != 12 or vcall.keywords:
+        raise P.Untranslatable("render_string: call of render_string_vertical with 12 positional arguments not found")
+    out.append(define("rs_charspace_v", vcall.args[6], params=["charspace", "scaling"]))
+    out.append(define("rs_dxscale_v", vcall.args[9], params=["fontsize", "scaling"]))
+
     lay = P.parse_file("pdfminer/layout.py")
     lc = P.find_function(lay, "LTChar.__init__")
     out.append(define("ltchar_adv", find_assign_in(lc, "adv"), params=["textwidth", "fontsize", "scaling"]))
     out.append(define("ltchar_descent", find_assign_in(lc, "descent"), params=["get_descent", "fontsize"]))
+    # vertical writing: displacement not scaled by Th, position vector (vx, vy), glyph box
+    out.append(define("ltchar_adv_v", find_assign_in(lc, "adv", nth=1), params=["textwidth", "fontsize"]))
+    out.append(define("ltchar_vx_default", find_assign_in(lc, "vx", nth=0), params=["fontsize"]))
+    out.append(define("ltchar_vx", find_assign_in(lc, "vx", nth=1), params=["vx", "fontsize"]))
+    out.append(define("ltchar_vy", find_assign_in(lc, "vy", nth=0), params=["vy", "fontsize"]))
+    bbv = find_assign_in(lc, "bbox", nth=0)
+    if not (isinstance(bbv, ast.Tuple) and len(bbv.elts) == 4):
+        raise P.Untranslatable("LTChar.__init__: vertical bbox is not a 4-tuple")
+    out.append(define("ltchar_bbox_v", bbv, "Rect", params=["vx", "vy", "rise", "adv", "fontsize"]))
     bb = find_assign_in(lc, "bbox", nth=1)     # 0: vertical writing, 1: horizontal
     if not (isinstance(bb, ast.Tuple) and len(bb.elts) == 4):
         raise P.Untranslatable("LTChar.__init__: horizontal bbox is not a 4-tuple")
@@ -163,6 +183,31 @@ def generate(lean_dir: str):
         raise P.Untranslatable("PDFFont.hscale is not a float constant")
     out.append(define("font_hscale", hs))
     out.append(define("font_vscale", hs))
+    # Type 3: (self.hscale, _) = apply_matrix_norm(self.matrix, (1, 0)); (_, self.vscale) = apply_matrix_norm(self.matrix, (0, 1))
+    t3 = P.find_function(fnt, "PDFType3Font.__init__")
+    found = {}
+    for node in ast.walk(t3):
+        if isinstance(node, ast.Assign) and len(node.targets) == 1 and isinstance(node.targets[0], ast.Tuple) \
+                and len(node.targets[0].elts) == 2 and isinstance(node.value, ast.Call):
+            names = [target_name(t) for t in node.targets[0].elts]
+            call = node.value
+            if isinstance(call.func, ast.Name) and call.func.id == "apply_matrix_norm" and len(call.args) == 2:
+                vec = P.literal(call.args[1])
+                if not (isinstance(vec, tuple) and len(vec) == 2 and all(isinstance(x, int) for x in vec)):
+                    raise P.Untranslatable("PDFType3Font: apply_matrix_norm vector is not a literal pair")
+                if target_name(call.args[0]) != "matrix":
+                    raise P.Untranslatable("PDFType3Font: apply_matrix_norm is not applied to self.matrix")
+                for k, nm in enumerate(names):
+                    if nm in ("hscale", "vscale"):
+                        found[nm] = (vec, k)
+    if set(found) != {"hscale", "vscale"}:
+        raise P.Untranslatable("PDFType3Font.__init__: hscale/vscale are not taken from apply_matrix_norm(self.matrix, v)")
+    for nm in ("hscale", "vscale"):
+        (vec, k) = found[nm]
+        proj = ".1" if k == 0 else ".2"
+        out.append(f"/-- PDFType3Font: `{nm}` = component {k} of apply_matrix_norm(FontMatrix, {vec}) -/\n"
+                   f"def type3_{nm} (matrix : Matrix) : Rat :=\n  (PdfVerif.Gen.Utils.apply_matrix_norm matrix ({vec[0]}, {vec[1]})){proj}\n\n")
+
     cw = P.find_function(fnt, "PDFFont.char_width")
     rets = [n.value for n in ast.walk(cw) if isinstance(n, ast.Return) and n.value is not None]
     if len(rets) < 1:
